@@ -1186,3 +1186,37 @@ Example retry_ok_example :
   let evs := [Cmd 1 c; Found 0 (Some 1) r; Finished 0; Cmd 1 c; Found 1 (Some 1) r; Found 1 (Some 2) r] in
   api_loop 1 3 (combine (flat_map (outcomes_of evs) [0; 1]) [[]; []]) = Some (AOk r).
 Proof. reflexivity. Qed.
+
+(* ------------------------------------------------------------------------------------------ *)
+(* the version map has no size cap: whatever the number of distinct contents returned to a query, *)
+(* the SplitRecord error carries exactly those contents                                        *)
+
+Lemma split_carries_every_version_lemma : forall pre e c vs, wf_trace (pre ++ [e]) ->
+  In (c, ESplit vs) (step_outs (final pre) e) ->
+  exists q, (e = Finished q \/ exists po r, e = Found q po r) /\
+    NoDup (map vcont vs) /\
+    forall ct, In ct (map vcont vs) <-> exists po r, In (Found q po r) (pre ++ [e]) /\ rcont r = ct.
+Proof.
+  intros pre e c vs W H.
+  destruct (split_lemma _ _ _ _ H) as (q1 & E1 & _ & ND & SOUND).
+  destruct (split_complete_lemma _ _ _ _ W H) as (q2 & E2 & COMPL).
+  assert (EQ : q1 = q2).
+  { destruct E1 as [E1|(po1 & r1 & E1)], E2 as [E2|(po2 & r2 & E2)]; subst e; try discriminate; inversion E2; reflexivity. }
+  subst q2. exists q1. split; [exact E1|]. split; [exact ND|]. intro ct. split.
+  - intro Hin. apply in_map_iff in Hin. destruct Hin as ([r0 ps] & Ect & Hv). unfold vcont in Ect. cbn in Ect.
+    destruct (SOUND r0 ps Hv) as (_ & NE & REP). destruct ps as [|p ps]; [contradiction|].
+    destruct (REP p (or_introl eq_refl)) as (po & r & A & _ & B). exists po, r. split; [exact A | congruence].
+  - intros (po & r & Hin & Ect). destruct (COMPL po r Hin) as (r0 & ps & Hv & Hc & _).
+    apply in_map_iff. exists (r0, ps). split; [unfold vcont; cbn; congruence | exact Hv].
+Qed.
+
+(* seven holders, seven versions (each has seen an op the others have not): all seven come back *)
+Example seven_versions_example :
+  let c := {| cq := QMajority; ctarget := None; cisreg := false; cholders := [] |} in
+  let v i := mk KReg (PReg 0 true [i] 0) in
+  let pre := [Cmd 1 c; Found 0 (Some 1) (v 1); Found 0 (Some 2) (v 2); Found 0 (Some 3) (v 3);
+              Found 0 (Some 4) (v 4); Found 0 (Some 5) (v 5); Found 0 (Some 6) (v 6); Found 0 (Some 7) (v 7)] in
+  In (0, ESplit [(v 1, [1]); (v 2, [2]); (v 3, [3]); (v 4, [4]); (v 5, [5]); (v 6, [6]); (v 7, [7])])
+     (step_outs (final pre) (Finished 0)) /\
+  handle_split [v 7; v 3; v 1; v 6; v 2; v 5; v 4] 1 = Some (mk KReg (PReg 0 true [1; 2; 3; 4; 5; 6; 7] 0)).
+Proof. split; [vm_compute; left; reflexivity | reflexivity]. Qed.
